@@ -18,6 +18,9 @@ def main(argv):
         for q in quals:
             if groups and g not in groups and not any(q.endswith(x) for x in groups):
                 continue
+            if q in reg.contracts and not reg.contracts[q].verify:
+                print("-- %s: callee-only contract, justified by %s" % (q, reg.contracts[q].justified_by))
+                continue
             t0 = time.time()
             res = reg.lemmas[q].run(loader, reg) if q in reg.lemmas else verify_unit(loader, reg.contracts[q], reg)
             agg = res.clause_status()
